@@ -17,8 +17,16 @@ operand OBJECTS are reused for the follow-up expressions the properties name (a+
 again, (a*b)/b).  Every element of every step is one correspondence case: the model (scalar level) gets the
 operands' quantities and the element's value as it was when the operand was built (results: right after they
 were computed), so an operation that edits an operand's container in place shows up in the next step.
+The two operands may hold DIFFERENT container kinds (`kind` = "ndarray|list": left operand's leaves are ndarrays,
+right operand's leaves are lists; 1-4 elements): `Array._DoOperation` then hands whole containers to the unit
+database (its numpy shortcut), which the model - applied per element - does not distinguish.
+
+Reported quantity type: every successful result also carries the dimension vector it REPORTS through
+`GetQuantityType()` (parsed: '(length) ** 2 * time / mass'; for a simple result the type itself), compared with the
+model's `reportedTypes` ("T" of the driver).
 """
 import math
+import re
 from collections import OrderedDict
 from fractions import Fraction
 
@@ -82,6 +90,55 @@ def entries_of(s):
 def canon_quantity(q):
     es = [[str(sym(c)), str(sym(ue[0])), str(int(ue[1]))] for c, ue in q.GetCategoryToUnitAndExps().items()]
     return dict(e=es, cap=str(sym(q.GetUnknownCaption() or "")), derived=bool(q.IsDerived()))
+
+
+_TOKEN = re.compile(r"^\((.*)\) \*\* (\d+)$")
+
+
+def parse_qtype(text, derived=True):
+    """[[quantity type, exponent], ..] as written in a `GetQuantityType()` string, in the order written
+    ('(length) ** 2 * time / mass' -> [['length', 2], ['time', 1], ['mass', -1]]); a simple quantity's type is
+    the text itself.  None when the text does not have the layout of `_MakeStr`."""
+    if not derived:
+        return [[text, 1]]
+    if text == "":
+        return []
+    parts = text.split(" / ")
+    if len(parts) > 2 or "" in parts:
+        return None
+    out = []
+    for sign, part in zip((1, -1), parts):
+        if sign == 1 and part == "1" and len(parts) == 2:
+            continue
+        for tok in part.split(" * "):
+            m = _TOKEN.match(tok)
+            name, e = (m.group(1), int(m.group(2))) if m else (tok, 1)
+            if not name or e == 0:
+                return None
+            out.append([name, sign * e])
+    return out
+
+
+def reported_types(q):
+    """canonical form of what a real quantity reports as its quantity type: sorted [sym(type), exp] pairs
+    (a type written twice stays twice), or the raw text when it cannot be parsed"""
+    text = q.GetQuantityType()
+    ps = parse_qtype(text, bool(q.IsDerived()))
+    if ps is None:
+        return dict(unparsed=text)
+    return sorted([str(sym(n)), str(int(e))] for n, e in ps)
+
+
+def reported_dims(s):
+    """dimension vector a real result REPORTS through GetQuantityType() (None: the text has no such layout)"""
+    q = s.GetQuantity()
+    ps = parse_qtype(q.GetQuantityType(), bool(q.IsDerived()))
+    if ps is None:
+        return None
+    d = {}
+    for n, e in ps:
+        d[n] = d.get(n, 0) + e
+    return {k: e for k, e in d.items() if e != 0}
 
 
 def operand_fields(s, i):
@@ -166,7 +223,7 @@ def impl(c, ctx):
             return dict(err="other", detail="non-float value %r" % (v,))
         if not math.isfinite(v):
             return dict(nonfinite=True)
-        return dict(ok=canon_quantity(r.GetQuantity()), v=float(v).hex())
+        return dict(ok=canon_quantity(r.GetQuantity()), v=float(v).hex(), T=reported_types(r.GetQuantity()))
     except Exception as e:
         return dict(err="other", detail="result unreadable: %r" % (e,))
 
@@ -198,10 +255,24 @@ def _agree(c, io, mo, ctx):
         return None if io["err"] == mo["err"] else "error kinds differ: impl=%s model=%s" % (io["err"], mo["err"])
     if io["ok"] != mo["ok"]:
         return "result quantities differ: impl=%s model=%s" % (show_q(io["ok"]), show_q(mo["ok"]))
+    if "T" in io:
+        want = sorted([str(n), str(int(e))] for n, e in mo.get("T", [["?", 0]]))
+        if io["T"] != want:
+            return "reported quantity type differs (GetQuantityType() of the result, parsed, against the model's " \
+                   "rep_and_exp): impl=%s model=%s for the result %s" % (show_t(io["T"]), show_t(want), show_q(io["ok"]))
     r = float.fromhex(io["v"])
     y, m = qparse(mo["v"]), qparse(mo["M"])
     ar = c["_t"].get("arr")
     if ar and "float32" in arr_dts(ar):
+        # float32 RANGE: the value is judged only when every exact magnitude of the evaluation (operand values,
+        # matched intermediates, conversion factors, result: "R" of the driver) lies well inside the float32 normal
+        # range; outside it float32 arithmetic loses relative precision (subnormals) or overflows.  float64 cases
+        # are never excused.
+        rg = [qparse(x) for x in mo.get("R", ["0/1", "0/1"])]
+        if (rg[0] != 0 and rg[0] < Fraction(1, 10 ** 30)) or rg[1] > 10 ** 30:
+            ctx.notes["float32 range: value not judged (correspondence)"] = \
+                ctx.notes.get("float32 range: value not judged (correspondence)", 0) + 1
+            return None
         # a float32 array takes part: the same bound with eps = 2**-24 (M is scaled instead of eps)
         m = max(m, abs(y)) * 2 ** 29
     if c["op"] == "floordiv":
@@ -222,6 +293,10 @@ def _agree(c, io, mo, ctx):
 def show_q(q):
     return dict(e=[[unsym(int(c)), unsym(int(u)), int(x)] for c, u, x in q["e"]], cap=unsym(int(q["cap"])),
                 derived=q["derived"])
+
+
+def show_t(t):
+    return t if isinstance(t, dict) else [[unsym(int(n)) if n.isdigit() else n, int(e)] for n, e in t]
 
 
 def nontrivial(c, io):
@@ -280,6 +355,30 @@ def elem_tree(t, m, dt="float64"):
     return [k, elem_tree(t[1], m, dt), elem_tree(t[2], m, dt)]
 
 
+ARR_CONTAINERS = ("ndarray", "list", "tuple")
+
+
+def arr_kinds(ar_or_kind):
+    """(container kind of the left operand's leaves, of the right operand's leaves); "ndarray|list" = mixed"""
+    k = ar_or_kind if isinstance(ar_or_kind, str) else ar_or_kind["kind"]
+    a, _sep, b = k.partition("|")
+    return (a, b or a)
+
+
+def kind_name(ka, kb):
+    return ka if ka == kb else "%s|%s" % (ka, kb)
+
+
+def result_container(l, r):
+    """the container `Array._DoOperation` returns: numpy as soon as one side is numpy, a tuple for two tuples,
+    else a list"""
+    import numpy
+
+    if isinstance(l, numpy.ndarray) or isinstance(r, numpy.ndarray):
+        return numpy.ndarray
+    return tuple if isinstance(l, tuple) and isinstance(r, tuple) else list
+
+
 def _container(vals, kind, dt="float64"):
     if kind == "ndarray":
         import numpy
@@ -316,7 +415,7 @@ def elems(obj):
 
 
 def _snap(obj):
-    return dict(q=canon_quantity(obj.GetQuantity()), vals=elems(obj))
+    return dict(q=canon_quantity(obj.GetQuantity()), vals=elems(obj), T=reported_types(obj.GetQuantity()))
 
 
 def run_group(ta, tb, mult, kind, fam, dts=("float64", "float64")):
@@ -326,7 +425,8 @@ def run_group(ta, tb, mult, kind, fam, dts=("float64", "float64")):
 
     with numpy.errstate(all="ignore"):
         try:
-            objs = dict(a=build_array(ta, mult, kind, dts[0]), b=build_array(tb, mult, kind, dts[1]))
+            ka, kb = arr_kinds(kind)
+            objs = dict(a=build_array(ta, mult, ka, dts[0]), b=build_array(tb, mult, kb, dts[1]))
         except Exception:
             return None
         snap = {k: _snap(o) for k, o in objs.items()}  # the operands as they were built
@@ -340,9 +440,9 @@ def run_group(ta, tb, mult, kind, fam, dts=("float64", "float64")):
             try:
                 res = apply_op(op, objs[l], objs[r])
                 out = _snap(res)
-                if not isinstance(res.values, type(objs[l].values)):
-                    steps.append(dict(err="other", detail="container %s became %s" % (type(objs[l].values).__name__,
-                                                                                      type(res.values).__name__)))
+                if type(res.values) is not result_container(objs[l].values, objs[r].values):
+                    steps.append(dict(err="other", detail="containers %s, %s gave %s" % (
+                        type(objs[l].values).__name__, type(objs[r].values).__name__, type(res.values).__name__)))
                     continue
                 steps.append(out)
                 objs["r%d" % j] = res
@@ -361,11 +461,21 @@ def factors(t):
     return factors(t[1]) + factors(t[2])
 
 
-def array_cases(ctx, fam, ta, tb, rng):
-    """the correspondence cases (one per step and element) of one operand pair evaluated with Arrays"""
+MIXED_SHARE = 0.35  # share of the Array groups whose two operands hold independently drawn container kinds
+
+
+def array_cases(ctx, fam, ta, tb, rng, kind=None, n=None):
+    """the correspondence cases (one per step and element) of one operand pair evaluated with Arrays
+    (`kind`, `n`: container kind(s) and number of elements, drawn when not given)"""
     shallow = factors(ta) <= 2 and factors(tb) <= 2
-    kind = rng.choice(ARR_KINDS + (("ndarray", "ndarray") if shallow else ()))
-    mult = [rng.choice(ARR_MULT) for _ in range(rng.choice((2, 3)))]
+    forced = kind is not None
+    if kind is None:
+        kind = rng.choice(ARR_KINDS + (("ndarray", "ndarray") if shallow else ()))
+        if rng.random() < MIXED_SHARE:
+            kind = kind_name(rng.choice(ARR_CONTAINERS), rng.choice(ARR_CONTAINERS))
+    mult = [rng.choice(ARR_MULT) for _ in range(n or rng.choice((2, 3) if rng.random() < 0.8 else (1, 4)))]
+    if forced and len(set(mult)) < len(mult):
+        mult = list(ARR_MULT[:len(mult)])  # distinct elements
     dts = ["float64", "float64"]
     if kind == "ndarray" and shallow and rng.random() < 0.7:
         dts = list(rng.choice(ARR_DTYPES))  # operands of at most two leaf factors: integer products stay exact
@@ -409,7 +519,7 @@ def impl_array(c, ctx):
     v = res["vals"][ar["i"]]
     if not math.isfinite(v):
         return dict(nonfinite=True)
-    return dict(ok=res["q"], v=float(v).hex())
+    return dict(ok=res["q"], v=float(v).hex(), T=res["T"])
 
 
 def arr_sems(t, mult, db, dt="float64"):
@@ -424,6 +534,55 @@ def arr_dts(ar):
 def arr_tol(ar):
     """relative tolerance of the oracles: float32 arithmetic where a float32 array takes part"""
     return 1e-5 if "float32" in arr_dts(ar) else 1e-9
+
+
+F32_LO, F32_HI = 1e-30, 1e30
+
+
+def in_f32_range(xs):
+    """every magnitude is 0 or well inside the float32 normal range"""
+    return all(x == 0 or (math.isfinite(x) and F32_LO <= abs(x) <= F32_HI) for x in xs)
+
+
+def f32_mags(arrays, db):
+    """float64 magnitudes that float32 arithmetic on these real Arrays goes through (for the oracles): the elements,
+    their base magnitudes, every unit factor slope ** exp, every ratio (slope(u) / slope(w)) ** exp between two
+    units of one quantity type occurring in the Arrays, and the elements scaled by such a ratio"""
+    ents, units = [], {}
+    for a in arrays:
+        for c, ue in a.GetQuantity().GetCategoryToUnitAndExps().items():
+            qt = db.GetCategoryQuantityType(c)
+            ents.append((a, qt, ue[0], ue[1]))
+            units.setdefault(qt, set()).add(ue[0])
+    out = []
+    for a in arrays:
+        vs = elems(a)
+        out += vs + mags_of(a, db)
+    for a, qt, u, e in ents:
+        su = slope(db, qt, u)
+        vs = elems(a)
+        for w in sorted(units[qt]):
+            try:
+                r = (su / slope(db, qt, w)) ** e
+            except (OverflowError, ZeroDivisionError):
+                r = math.inf
+            out.append(r)
+            out += [v * r for v in vs]
+        try:
+            out.append(su ** e)
+        except (OverflowError, ZeroDivisionError):
+            out.append(math.inf)
+    return out
+
+
+def f32_skip(ctx, ar, arrays, db, extra=()):
+    """True (and counted in the notes) when a float32 array takes part and a magnitude leaves the judged range"""
+    if "float32" not in arr_dts(ar):
+        return False
+    if in_f32_range(f32_mags(arrays, db) + list(extra)):
+        return False
+    ctx.notes["float32 range: value not judged (oracle)"] = ctx.notes.get("float32 range: value not judged (oracle)", 0) + 1
+    return True
 
 
 def mags_of(arr, db):
